@@ -1236,6 +1236,10 @@ class RTCSctpTransport(AsyncIOEventEmitter):
         if uint32_gt(self._last_sacked_tsn, chunk.cumulative_tsn):
             return
 
+        # a SACK cannot acknowledge a TSN which was never assigned
+        if uint32_gt(chunk.cumulative_tsn, tsn_minus_one(self._local_tsn)):
+            return
+
         received_time = time.time()
         self._last_sacked_tsn = chunk.cumulative_tsn
         cwnd_fully_utilized = self._flight_size >= self._cwnd
